@@ -614,6 +614,9 @@ def run_job(job):
                 any_fired = True
                 bump("fired:" + f[3])
                 bump("site=" + site_of(f[4]))
+                pos = "first" if f[2] == 1 else ("last" if f[2] == N else ("boundary" if f[2] in boundaries else "interior"))
+                bump("state:%s|%s|%s|%s|attempt%d-of-%d%s" % (meta["target"], sc["route"], site_of(f[4]), pos,
+                                                              res["attempts"].index(r) + 1, len(res["attempts"]), "|touch" if r.get("touch") else ""))
                 if f[2] == 1:
                     bump("probe:fault-at-first-evaluation")
                 if f[2] == N:
@@ -854,3 +857,4 @@ COMPONENTS = {
 EXPECTED_PROBES = ["fault-at-first-evaluation", "fault-at-last-evaluation", "fault-at-block-boundary", "fault-in-derivative-evaluation",
                    "fault-while-reading-workbook", "retry-after-failed-attempt", "retry-after-failed-excel-write", "shared-fp-across-attempts"]
 WALL_CAP = {"quick": 240.0, "thorough": 3300.0}
+STATE_MEASURE = "distinct (target or writer, route, site of the failing function, position class first/last/block-boundary/interior, attempt index within the retry plan, via .workbook or write) combinations in which a fault fired"
